@@ -1,8 +1,8 @@
 package props
 
 import (
-	"go/token"
 	"fmt"
+	"go/token"
 	"go/types"
 	"strings"
 
